@@ -42,8 +42,7 @@ fn main() {
                 18 => serde_fam::gen_c18(&mut out, tier, &mut rng),
                 19 => serde_fam::gen_c19(&mut out, tier, &mut rng),
                 20 => { conv::gen_c20(&mut out, tier, &mut rng); hist::gen_clone_from(&mut out, 20, tier) }
-                8 | 9 => { iters::generate(&mut out, prop, tier, &mut rng); bigiter::generate(&mut out, prop, tier, &mut rng) }
-                10 => iters::generate(&mut out, prop, tier, &mut rng),
+                8 | 9 | 10 => { iters::generate(&mut out, prop, tier, &mut rng); bigiter::generate(&mut out, prop, tier, &mut rng) }
                 11 => { hist::gen_c11_iter(&mut out, tier, &mut rng); hist::gen_zst(&mut out, 11, tier, &mut rng); ops::gen_c11_sort(&mut out, tier, &mut rng); hist::gen_bombs(&mut out, 11, tier) }
                 12 => { hist::gen_c12_drain(&mut out, tier, &mut rng); hist::gen_zst(&mut out, 12, tier, &mut rng); hist::gen_large(&mut out, 12, tier, &mut rng); hist::gen_big(&mut out, 12, tier, &mut rng) }
                 _ => panic!("no generator for property {prop}"),
